@@ -72,7 +72,9 @@ func genTry(g *c14gen) *tryProg {
 		return t
 	}
 	p := &tryProg{}
+	g.fork = g.rng.Chance(35)
 	p.Body = mk("body", 40, 3)
+	g.fork = false
 	p.Body.Ctx = 50
 	p.Body.walk(func(x *gTask) { x.Ctx = 50 })
 	if g.rng.Chance(65) {
@@ -116,11 +118,25 @@ func runTry(pa *pipApp, rng *RNG, epoch string, p *tryProg, pre func(root app.Sc
 		pre(root)
 	}
 	var gates []string
+	type forkCtl struct{ cmd, gateA, gateB string }
+	var forks []forkCtl
+	forkGate := map[string]bool{}
 	all := append([]*gTask{p.Body}, p.handlers()...)
 	for _, t := range all {
 		t.walk(func(x *gTask) {
 			for i, c := range x.Body {
-				if c.Kind == "gate" {
+				if c.Kind == "fork" {
+					f := forkCtl{cmd: cmdID(epoch, x.UID, i), gateA: cmdID(epoch, c.Sub.UID, 0), gateB: cmdID(epoch, c.Sub2.UID, 1)}
+					forks = append(forks, f)
+					forkGate[f.gateA], forkGate[f.gateB] = true, true
+				}
+			}
+		})
+	}
+	for _, t := range all {
+		t.walk(func(x *gTask) {
+			for i, c := range x.Body {
+				if c.Kind == "gate" && !forkGate[cmdID(epoch, x.UID, i)] {
 					gates = append(gates, cmdID(epoch, x.UID, i))
 				}
 			}
@@ -137,6 +153,15 @@ func runTry(pa *pipApp, rng *RNG, epoch string, p *tryProg, pre func(root app.Sc
 		for _, g := range gates {
 			time.Sleep(time.Duration(50+rng.Intn(500)) * time.Microsecond)
 			pa.log.release(g)
+		}
+		// fork: let "a" fail only when "b" is inside its gate, and hold "b" until the fork command has
+		// returned and the handlers had every chance to start (they must not: "b" is still running)
+		for _, f := range forks {
+			waitFor(300*time.Millisecond, func() bool { return pa.log.isInside(f.gateB) })
+			pa.log.release(f.gateA)
+			waitFor(300*time.Millisecond, func() bool { return pa.log.has("FK", f.cmd) })
+			time.Sleep(20 * time.Millisecond)
+			pa.log.release(f.gateB)
 		}
 	}()
 	pa.log.add("X", epoch+".try", true)
@@ -180,6 +205,28 @@ func runTry(pa *pipApp, rng *RNG, epoch string, p *tryProg, pre func(root app.Sc
 	return ob
 }
 
+func waitFor(tmo time.Duration, cond func() bool) bool {
+	end := time.Now().Add(tmo)
+	for time.Now().Before(end) {
+		if cond() {
+			return true
+		}
+		time.Sleep(100 * time.Microsecond)
+	}
+	return cond()
+}
+
+func (l *probeLog) has(kind, id string) bool {
+	l.mu.Lock()
+	defer l.mu.Unlock()
+	for _, e := range l.events {
+		if e.Kind == kind && e.ID == id {
+			return true
+		}
+	}
+	return false
+}
+
 // subtree analysis of one task from the trace: did it (or something it spawned) fail; first/last seq
 type subRes struct {
 	complete    bool // executed all its commands, or stopped at its own failing command / failed nested task
@@ -219,6 +266,32 @@ func analyse(t *gTask, evs map[string][]pEvent) (r subRes) {
 		upd(x.Seq)
 		k++
 		c := t.Body[i]
+		if c.Kind == "fork" {
+			// events of the command: B, SR, FK; the two nested tasks run concurrently with each other
+			if k+1 < len(l) && l[k+1].Kind == "FK" {
+				upd(l[k+1].Seq)
+				k++
+			}
+			if !x.OK {
+				r.failed, stopped = true, true
+			}
+			for _, sub := range []*gTask{c.Sub, c.Sub2} {
+				cr := analyse(sub, evs)
+				if cr.seqErr != "" {
+					r.seqErr = cr.seqErr
+					return
+				}
+				if cr.first >= 0 {
+					upd(cr.first)
+					upd(cr.last)
+				}
+				if cr.failed {
+					r.failed, stopped = true, true
+				}
+			}
+			pos++
+			continue
+		}
 		switch c.Kind {
 		case "fail":
 			r.failed, stopped = true, true
@@ -495,7 +568,27 @@ func runC16(o *Out, rng *RNG, tier string, replay string) {
 		cs := &c16case{Seed: seed, Index: idx, Prog: p, Obs: ob}
 		c16oracles(o, cs)
 		key, _ := json.Marshal([]interface{}{p, ob.Events})
-		o.AddCase(c16coq(cs, names), cs, string(key), len(p.handlers()) > 0 && len(ob.Events) >= 4)
+		hasFork := false
+		p.Body.walk(func(x *gTask) {
+			for _, c := range x.Body {
+				if c.Kind == "fork" {
+					hasFork = true
+				}
+			}
+		})
+		if hasFork {
+			// one command that creates two CONCURRENT nested tasks through the Go API is outside the
+			// command language of the model (pip:run is synchronous): property oracles only
+			o.CountEval(string(key), len(p.handlers()) > 0)
+			o.Stat("blocks_with_fork_l2_only")
+			for _, e := range ob.Events {
+				if e.Kind == "FK" {
+					o.Stat("fork_commands_executed")
+				}
+			}
+		} else {
+			o.AddCase(c16coq(cs, names), cs, string(key), len(p.handlers()) > 0 && len(ob.Events) >= 4)
+		}
 		o.Stat("try_blocks")
 		o.Stat("run_" + ob.RunErr)
 		o.Stat(fmt.Sprintf("handlers_defined_%d", len(p.handlers())))
